@@ -72,6 +72,21 @@ CLAIMED = {
          "On every Legal sequence (plus the predicates C15 proves of runs) the State bookkeeping never fails, the HTML division is safe, the last "
          "rendering shows the final state, Sum weighted_elapsed = busy time exactly over Q, the sort with fallback never raises (C20_*); witness for "
          "fixed finding F4.", "4/C20"),
+ "C09": ("proof", "Lean 4 proof (physical-plan closed form = transcribed loop; path preservation under pruning; order via the engine's C01) + dry-run graph differential",
+         "For a rebuilt stored value: orig -> write -> read -> argument consumers, plain dependents after the write, arguments always from read nodes, "
+         "registered output redirected to its read node (C09_edges, C09_args_from_read, C09_output); pruning preserves these paths; hence in every "
+         "reachable engine state a begun consumer implies completed read/write/orig (C09_order, C09_path_order); dependent sources are read after their "
+         "predecessors (C09_depsource*); stored descendants are out of date too (C09_downstream_stale); the physical plan is acyclic.", "4/C09"),
+ "C13": ("proof", "Lean 4 proof (frame theorem on an explicit heap model, all writes go to objects allocated after copy) + structural snapshots and write tracing",
+         "Every object reachable from the caller's plan and registry is unchanged after run/dry_run/render for every outcome (C13_frame, "
+         "C13_frame_snapshot), every write targets a fresh object (C13_writes_fresh), copies are independent both ways, two interleaved runs of one "
+         "plan leave it unchanged (C13_concurrent).", "4/C13"),
+ "C14": ("proof", "Lean 4 proof (dry-run event model; dry-run result = input of run_physical; sink-gather keeps everything) + clone-vs-clone execution differential",
+         "A dry run's store events are modified-time queries only (C14_quiet); what it returns is exactly what run_physical receives, also with "
+         "transform_physical (C14_same_plan, C14_result); pruning P + all-nodes gather w.r.t. the gather removes nothing (C14_selfcontained*).", "4/C14"),
+ "C16": ("proof", "Lean 4 proof, partial (reference model of slots/BoundCalls; CPython frames/tracebacks outside) + weakref/gc census equality",
+         "After a node and all its consumers have finished (returned or raised) nothing uberjob keeps references its result; the output is held exactly "
+         "by the output slot; the result table is unreachable after preparation; results are kept while a consumer is pending (C16_*).", "4/C16"),
  "C10": ("proof", "Lean 4 proof (error-bound invariant over generated stop condition) + trace refinement check",
          "running <= workers, pool size <= workers, failures <= k + workers for max_errors = k, no early stop, idle workers can always take ready "
          "items (C10_workers, C10_pool, C10_errors_bound, C10_no_early_stop, C10_none, C10_parallel, C10_parallel_begin); retry: attempts = "
@@ -87,6 +102,25 @@ NOTES = {
          "_gather/_call/get_argument_nodes/BoundCall.run). Tie: T1 + T2 on seeded programs through the real Plan API and uberjob.run (all container "
          "shapes, subclasses, shared objects, colliding keys, kwargs orders, unpack lengths), compared with the Lean driver and with a reference "
          "evaluator, under several worker counts / schedulers / controlled schedules. Trusted: Python's set/dict/hash semantics of user objects."),
+ "C09": ("Theorems are about Model/Phys.lean: the physical plan as a closed form AND as a transcription of the plan_with_value_stores loop (proved "
+         "equal for every registry order), ancestor pruning, literal pruning as a fold over Gen.Stale.keepLiteral; order statements are obtained by "
+         "applying C01_transitive of the engine model to the physical graph. Tie: T1 Gen.Stale/Gen.DryRun; T2: real dry_run graph and engine graph "
+         "= model's node order and keyed edges at every state of seeded histories, random registry orders; real runs with NORMALISING stores under "
+         "controlled schedules (write < read-back < consumer start, values received). The value clause is proved as a fact about edges only "
+         "(arguments come from read nodes); that consumers receive what read returned is checked on real runs."),
+ "C13": ("Theorems are about Model/Heap.lean (explicit heap of plan/graph/node/registry objects; copy allocates fresh plan+graph objects sharing node "
+         "objects; the run path as a script of heap operations parameterised by the regenerated Gen.Purity facts). Tie: T1 + T2 deep structural "
+         "snapshots of the caller's objects before/after run / dry_run / render for all outcomes, traced graph and attribute writes, concurrent runs "
+         "of one plan from several threads, Plan.copy / Registry.copy independence under generated mutations. Aliasing is as good as the heap model."),
+ "C14": ("Theorems are about Model/DryRun.lean + Model/Phys.lean with the regenerated Gen.DryRun (statements of run in source order; the only store "
+         "method called on the transformation path is get_modified_time). Tie: T2 (a) dry-run event log = mtime queries only, caller objects untouched, "
+         "(b) run(P, output=list(P.graph.nodes())) on one clone of the store state vs the real run on another clone: same events, stores, output; "
+         "(c) P + gather = model. 'Same graph therefore same events' rests on determinism and on (b)."),
+ "C16": ("Theorems are about Model/Refs.lean (slots, BoundCalls, lookup entries, output slot; references as _create_bound_call_lookup_and_output_slot "
+         "creates them; drop at bound_call.value = None in the finally) over arbitrary operation lists and, via the engine model, over every reachable "
+         "engine state. PARTIAL: references held by CPython frames, tracebacks of raised exceptions (the run's first error keeps its arguments "
+         "through first_node_error) and user code are outside the model. Tie: T1 Gen.Refs; T2 weakref + gc census of live results at every call "
+         "boundary (single worker and controlled schedules) equals the model's live set, including results whose last consumer failed."),
  "C11": ("Theorems are about Model/FileStore.lean (file system = path -> (content, mtime) + clock; a write is open-truncate staging, write chunks, close, "
          "replace, with the clean-up of the exception path; fault schedules of raise/die with partial effect at any operation, any number of faults) "
          "instantiated with the regenerated Gen.FileStore (staging suffix, position of os.replace relative to the try, handler type, per-store open "
